@@ -5,7 +5,7 @@ import ast
 from ..astutil import Env, chain, src, walk, stmts
 from ..model import Unrecognised
 
-__all__ = ['flag_clobber', 'subclass_overrides', 'function_as_expr', 'concept_cls', 'resolve_method', 'single_return', 'returns_of',
+__all__ = ['absent', 'closed_world', 'flag_clobber', 'subclass_overrides', 'function_as_expr', 'concept_cls', 'resolve_method', 'single_return', 'returns_of',
            'top_level', 'find_calls', 'only', 'method_calls_on']
 
 
@@ -128,3 +128,22 @@ def flag_clobber(R, func, flags, rule='FLAG-CLOBBER'):
         R.check(not bad, rule, func, bad[0] if bad else func.node, f'{func.name}: the caller\'s {flag} flag is not overwritten',
                 f'{flag} only read', src(bad[0])[:90] if bad else '',
                 extra={'consequence': f'the path selected by {flag} is silently replaced for some inputs'} if bad else None)
+
+
+def closed_world(model, func):
+    """True when the function (after normalisation) calls no *new* package helper that could carry the effect a rule
+    is looking for: only then is "the effect is missing here" a fact about the behaviour."""
+    from .. import normalize
+    for n in ast.walk(func.node):
+        if isinstance(n, ast.Call):
+            target, _ = normalize.resolve_helper(model, func, n)
+            if target is not None and target is not func:
+                return False
+    return True
+
+
+def absent(model, R, rule, func, node, slot, expected, found, extra=None):
+    """Report a missing effect: VIOLATION in a closed world, UNRECOGNISED when an un-inlined new helper is called."""
+    if closed_world(model, func):
+        return R.bad(rule, func, node, slot, expected, found, extra)
+    return R.unknown(rule, func, node, slot, f'{found} - but the function delegates to a helper the rule does not follow')
